@@ -37,6 +37,9 @@ THEOREMS = [
         "nondetection_exact", "nondetection_mem", "wn_parallelogram", "wn_parallelogram_value",
         "wn_is_sum_mod_256", "inside_iff_geometric_affine", "inside_iff_geometric", "scale_mono",
         "scale_mono_crop", "scaleFactor_spec", "scaleFactor_linear", "isNone_spec", "index_quirk_unobservable", "index_quirk_unobservable_box",
+        # decision tables / expression trees extracted from the real code (harness/dt_c12.py), regenerated on every run
+        "frame_table_check", "frame_code_table_eq_model", "frame_code_table_eq_modelCode", "objDigit_spec", "table_single_object",
+        "table_no_objects", "scaleFactor_code_eq_model", "scaleFactor_code_spec",
     ]
 ]
 RULE = (
@@ -65,6 +68,10 @@ TRUSTED = [
     "pyquaternion Quaternion.rotate = rotation matrix of the normalised quaternion (rational for rational components)",
     "shapely Polygon(exterior).exterior.coords returns the given vertices in the given order",
     "np.linalg.norm(position) is handed to the model as the exact rational of the float it returned",
+    "harness/dt_c12.py + harness/dtable.py + harness/dt_multi.py (decision-table translator): the stub objects (an object exposes "
+    "get_distance, crop_pointcloud, visibility; a crop exposes len and the nearest-point access; the threshold is a symbolic number), "
+    "the DFS over decisions, the encoding of a frame result as a number, the Lean emission; float literals of the source are read as the "
+    "decimal numerals they print as (0.01 = 1/100); order atoms of different pairs are treated as independent (over-approximation)",
 ]
 ASSUMPTIONS = [
     "points compared against the geometric oracle are >= 1e-6 away from every footprint edge line (guaranteed by "
@@ -1310,9 +1317,91 @@ def corpus():
     return cs
 
 
+def table_witness_cases():
+    """concrete frame cases realising the valuations on which the code's decision table (harness/dt_c12.py) and the model's
+    skeleton differ, and the rational points on which the code's scale expression differs from the model's formula; empty on an
+    unchanged source. Never raises."""
+    try:
+        from .. import dt_c12
+
+        unit = {"quat": ["1", "0", "0", "0"], "size": [2.0, 4.0, 2.0], "mode": "identity"}
+        shape_of = {nm: (n, k) for nm, n, k in dt_c12.SHAPES}
+        cs, seen = [], set()
+        for name, asg, rc, rm in dt_c12.table_disagreements():
+            n, k = shape_of[name]
+            z = asg.get("cmp(0|thr)")
+            thr = {"lt": 3, "eq": 0, "gt": -2, None: 3}[z]
+            objs, rows, ok = [], [], True
+            for i in range(n):
+                cx = 10.0 + 20.0 * i
+                empty = bool(asg.get(f"inside{i}.empty", False))
+                o = asg.get(f"cmp(num{i}|thr)", "eq" if thr >= 1 else "gt")
+                num = 0 if empty else {"lt": thr - 1, "eq": thr, "gt": max(thr, 0) + 2}[o]
+                if not empty and num < 1:
+                    ok = False  # jointly unrealisable (order atoms are treated as independent by the table)
+                for j in range(num):
+                    rows.append([cx + 0.25 * j - 0.5, 0.125 * j - 0.25, 0.0])
+                objs.append({"box": dict(unit, pos=[cx, 0.0, 0.0]), "vis": "NONE" if asg.get(f"vis{i}.none", False) else "FULL"})
+            if not ok:
+                continue
+            rows.append([500.0, 500.0, 0.0])
+            nd = [[] if asg.get(f"nd{j}.empty", False) else [[600.0 + j, 600.0, 0.0]] for j in range(k)]
+            c = {"kind": "frame", "cols": 3, "cloud": rows, "objs": objs,
+                 "cfg": {"s0": 1.0, "s100": 1.0, "min_points": thr, "uuids": None, "mode": "const1"}, "nd_clouds": nd,
+                 "table_witness": {"shape": name, "valuation": {a: (o if isinstance(o, str) else bool(o)) for a, o in asg.items()},
+                                   "code_table": rc, "model": rm}}
+            key = core.jsonable(c)["cloud"].__repr__() + repr(objs) + repr(nd) + repr(thr)
+            if key not in seen:
+                seen.add(key)
+                cs.append(c)
+        # arithmetic kernel: a point where the code's expression and the model's formula differ -> an object at that distance
+        for which in ("scale", "crop_scale"):
+            e = dt_c12.STATE.get(which)
+            for d in (dt_c12.scale_differences(e) if e is not None else [])[:4]:
+                dist, s0, s100 = float(Fraction(d["d"])), float(Fraction(d["s0"])), float(Fraction(d["s100"]))
+                k_true = float(dt_c12.model_scale(Fraction(d["d"]), Fraction(d["s0"]), Fraction(d["s100"])))
+                if dist < 0 or k_true <= 0.0625:
+                    continue
+                box = dict(unit, pos=[dist, 0.0, 0.0])
+                rows = [[dist, 0.0, 0.0], [dist + 1.9375 * k_true, 0.0, 0.0], [dist + 2.0625 * k_true, 0.0, 0.0],
+                        [dist, 0.9375 * k_true, 0.0], [dist, 1.0625 * k_true, 0.0], [dist + 1.0, 0.0, 0.0]]
+                cs.append({"kind": "frame", "cols": 3, "cloud": rows, "objs": [{"box": box, "vis": "FULL"}],
+                           "cfg": {"s0": s0, "s100": s100, "min_points": 4, "uuids": None, "mode": "dist"}, "nd_clouds": [rows],
+                           "table_witness": {"kernel": which, "point": d}})
+        return cs
+    except Exception:  # noqa: BLE001 - the witness step must never break the check
+        return []
+
+
+def extra_evidence():
+    from .. import dt_c12
+
+    return {"tables": dt_c12.evidence()}
+
+
+def _table_branches():
+    """once per run: how the tables of the real code came out (`table:untranslatable` = the translator fell back)"""
+    if _STATE.get("table_branches_done"):
+        return []
+    _STATE["table_branches_done"] = True
+    try:
+        from .. import dt_c12
+
+        ev = dt_c12.evidence()
+        b = [f"table:untranslatable:{k}" for k in ev["decision_tables_untranslatable"]]
+        for k in ("scale_kernel", "crop_scale_kernel"):
+            if ev[k] != "translated":
+                b.append(f"table:untranslatable:{k}")
+        if b:
+            b.append("table:untranslatable")
+        return b + [f"table:{k}:paths={v['paths']}" for k, v in ev["decision_tables"].items()]
+    except Exception:  # noqa: BLE001
+        return ["table:untranslatable"]
+
+
 def generate(rng, tier):
     n = {"quick": (300, 300, 200, 130), "thorough": (2400, 2400, 1600, 1000)}[tier]
-    cases = []
+    cases = table_witness_cases()
     for i in range(n[0]):
         cases.append(_gen_raw(rng, malformed=(i % 12 == 11)))
     for i in range(n[1]):
@@ -1747,7 +1836,9 @@ def _gen_derived(rng, how=None):
 
 def branches(case, out):
     k = case["kind"]
-    b = [f"kind:{k}", f"cols:{case['cols']}", f"npts:{min(len(case['cloud']) // 20 * 20, 100)}+"]
+    b = [f"kind:{k}", f"cols:{case['cols']}", f"npts:{min(len(case['cloud']) // 20 * 20, 100)}+"] + _table_branches()
+    if case.get("table_witness"):
+        b.append("table:witness")
     if k == "raw":
         b.append(f"raw:{case.get('shape')}:{case.get('variant')}")
         if isinstance(out["inside"], dict):
@@ -1932,8 +2023,8 @@ def shrink(case):
 
 
 def search(rng, st, disagreements):
-    """more of every stream when a proof or the correspondence broke"""
-    cases = []
+    """witnesses of a broken table theorem first, then more of every stream when a proof or the correspondence broke"""
+    cases = table_witness_cases()
     for i in range(400):
         cases.append(_gen_raw(rng))
         cases.append(_gen_boxcase(rng))
